@@ -42,6 +42,7 @@
 #include "QXmppVersionManager.h"
 
 #include <QBuffer>
+#include <QDir>
 #include <QCryptographicHash>
 #include <QMessageAuthenticationCode>
 #include <QMimeDatabase>
@@ -674,7 +675,27 @@ struct Case {
 #ifdef QXMPP_VERIF_HOOKS
                 if (st.contains("ibbBlockSize")) tm->verifSetIbbBlockSize(st["ibbBlockSize"].toInt());
 #endif
+                const int recvJunk = st["recvToFile"].toInt(-1);   // >= 0: accept into a file path at which a file of that many bytes already exists
                 QObject::connect(tm, &QXmppTransferManager::fileReceived, &c.ctx, [=](QXmppTransferJob *job) {
+                    if (recvJunk >= 0) {
+                        const QString path = QDir::tempPath() + u"/verif-recv-%1-%2.bin"_s.arg(QCoreApplication::applicationPid()).arg(quintptr(job), 0, 16);
+                        {
+                            QFile f(path);
+                            if (f.open(QIODevice::WriteOnly | QIODevice::Truncate)) f.write(QByteArray(recvJunk, '\x5a'));
+                        }
+                        cp->jobs[u"recv:"_s + job->sid()] = job;
+                        sig("fileReceived", { { "sid", job->sid() }, { "size", double(job->fileSize()) }, { "path", path } });
+                        QObject::connect(job, &QXmppTransferJob::finished, &cp->ctx, [=]() {
+                            QFile f(path);
+                            QByteArray data;
+                            if (f.open(QIODevice::ReadOnly)) data = f.readAll();
+                            f.close();
+                            QFile::remove(path);
+                            sig("recvJobFinished", { { "sid", job->sid() }, { "error", int(job->error()) }, { "state", int(job->state()) }, { "data", QString::fromLatin1(data.toHex()) }, { "toFile", true } });
+                        });
+                        job->accept(path);
+                        return;
+                    }
                     auto *buf = new QBuffer(job);
                     buf->open(QIODevice::WriteOnly);
                     cp->recvBuffers[job->sid()] = buf;
@@ -1185,6 +1206,34 @@ struct Case {
             }
             rec["stage"] = "success-sent";
             return finish(true);
+        }
+        if (op == u"discoSet") {  // the application changes what it advertises while connected
+            auto &c = cli(st);
+            if (auto *dm = c.client->findExtension<QXmppDiscoveryManager>()) {
+                if (st.contains("clientName")) dm->setClientName(st["clientName"].toString());
+                if (st.contains("clientType")) dm->setClientType(st["clientType"].toString());
+                if (st.contains("clientCategory")) dm->setClientCategory(st["clientCategory"].toString());
+                if (st.contains("infoFormValue")) {
+                    QXmppDataForm form;
+                    form.setType(QXmppDataForm::Result);
+                    QXmppDataForm::Field ft, f2;
+                    ft.setKey(u"FORM_TYPE"_s);
+                    ft.setType(QXmppDataForm::Field::HiddenField);
+                    ft.setValue(u"urn:xmpp:dataforms:softwareinfo"_s);
+                    f2.setKey(u"software_version"_s);
+                    f2.setValue(st["infoFormValue"].toString());
+                    form.setFields({ ft, f2 });
+                    dm->setClientInfoForm(form);
+                }
+            }
+            return true;
+        }
+        if (op == u"clientPresence") {  // QXmppClient::setClientPresence(): stamps the capabilities and sends
+            auto &c = cli(st);
+            QXmppPresence p(QXmppPresence::Available);
+            p.setStatusText(st["status"].toString(u"again"_s));
+            c.client->setClientPresence(p);
+            return true;
         }
         if (op == u"sleep") {  // lets timers of the client fire (keep-alive, reconnection back-off)
             QElapsedTimer t;
